@@ -387,10 +387,10 @@ var c17PorcModel = porcupine.Model{
 }
 
 type c17Scenario struct {
-	Updates []map[string]int `json:"updates"`
-	Reloads []string         `json:"reloads"`
-	Reads   int              `json:"reads"`
-	WaitInit bool            `json:"wait_init"`
+	Updates  []map[string]int `json:"updates"`
+	Reloads  []string         `json:"reloads"`
+	Reads    int              `json:"reads"`
+	WaitInit bool             `json:"wait_init"`
 }
 
 // c17Sched runs one scheduled execution and returns the recorded history.
